@@ -26,6 +26,19 @@ Definition sub32_p (p : profile) (a b : N) : trap N :=
   | Release => Val ((a + two32 - b) mod two32)
   end.
 
+(** plain [+] and [*] on u128 under a build profile *)
+Definition two128 : N := 340282366920938463463374607431768211456.
+Definition add128_p (p : profile) (a b : N) : trap N :=
+  match p with
+  | Debug => if a + b <? two128 then Val (a + b) else Trap
+  | Release => Val ((a + b) mod two128)
+  end.
+Definition mul128_p (p : profile) (a b : N) : trap N :=
+  match p with
+  | Debug => if a * b <? two128 then Val (a * b) else Trap
+  | Release => Val ((a * b) mod two128)
+  end.
+
 (** Vec<u64> *)
 Definition vec_len (v : list N) : N := N.of_nat (length v).
 (** Vec::resize(new_len, value) *)
